@@ -107,7 +107,16 @@ func (xp xpathImpl) resolveOperator(oper *xpath.Operator, ident string, s *Selec
 	case "!=":
 		return !val.Equal(a, b), nil
 	default:
-		c := a.(val.Comparable).Compare(b.(val.Comparable))
+		if a.Format() != b.Format() {
+			// a union leaf holding a member of another type than the literal's
+			return false, nil
+		}
+		ac, aHasOrder := a.(val.Comparable)
+		bc, bHasOrder := b.(val.Comparable)
+		if !aHasOrder || !bHasOrder {
+			return false, fmt.Errorf("%w. '%s' is of type %s which has no order, only = and != apply", fc.BadRequestError, ident, a.Format())
+		}
+		c := ac.Compare(bc)
 		switch oper.Oper {
 		case "<":
 			return c < 0, nil
